@@ -12,13 +12,13 @@ Lemma parse_loop_cons : forall base base0 c s' n us,
                  else if (97 <=? lower c) && (lower c <=? 122) then Some (lower c - 97 + 10)
                  else None in
         match d with
-        | None => (PErr ESyntax, us)
+        | None => (UErr ESyntax, us)
         | Some d =>
-            if base <=? d then (PErr ESyntax, us)
-            else if (maxu64 / base + 1) <=? n then (PErr ERange, us)
+            if base <=? d then (UErr ESyntax, us)
+            else if (maxu64 / base + 1) <=? n then (UErr ERange, us)
             else let nb := n * base in
                  let n1 := (nb + d) mod two64 in
-                 if (n1 <? nb) || (maxu64 <? n1) then (PErr ERange, us)
+                 if (n1 <? nb) || (maxu64 <? n1) then (UErr ERange, us)
                  else parse_loop base base0 s' n1 us
         end.
 Proof. reflexivity. Qed.
@@ -27,7 +27,7 @@ Lemma two64_nz : two64 <> 0.
 Proof. vm_compute; discriminate. Qed.
 
 Lemma loop_bound : forall base b0 s n us r us',
-  parse_loop base b0 s n us = (POk r, us') -> n < two64 -> r < two64.
+  parse_loop base b0 s n us = (UOk r, us') -> n < two64 -> r < two64.
 Proof.
   induction s as [|c s IH]; intros n us r us' H Hn.
   - cbn [parse_loop] in H. inversion H; subst; auto.
@@ -58,7 +58,7 @@ Lemma maxdiv : maxu64 / 10 = 1844674407370955161.
 Proof. vm_compute; reflexivity. Qed.
 
 Lemma loop_dec : forall ds n, all_digits ds = true -> fold_left step ds n < two64 ->
-  parse_loop 10 true ds n false = (POk (fold_left step ds n), false).
+  parse_loop 10 true ds n false = (UOk (fold_left step ds n), false).
 Proof.
   induction ds as [|a ds IH]; intros n Hall Hlt.
   - reflexivity.
@@ -89,7 +89,7 @@ Qed.
 
 (* TARGET STATEMENTS -- all proved *)
 
-Lemma parse_uint0_bound : forall s n, parse_uint0 s = POk n -> n < two64.
+Lemma parse_uint0_bound : forall s n, parse_uint0 s = UOk n -> n < two64.
 Proof.
   intros s n H. unfold parse_uint0 in H.
   destruct s as [|c0 r0]; try discriminate.
@@ -109,7 +109,7 @@ Proof.
 Qed.
 
 Theorem env_value_sound : forall s min v, (0 <= min)%Z -> parse_or_default s min = EnvValue v ->
-  exists n, parse_uint0 s = POk n /\ v = Z.of_N n /\ (min < v < 9223372036854775808)%Z.
+  exists n, parse_uint0 s = UOk n /\ v = Z.of_N n /\ (min < v < 9223372036854775808)%Z.
 Proof.
   intros s min v Hmin H. unfold parse_or_default in H.
   destruct s as [|c r]; try discriminate.
@@ -137,7 +137,7 @@ Proof.
   assert (Hdv : dec_val (c :: r) = fold_left step (c :: r) 0) by reflexivity.
   remember (dec_val (c :: r)) as v eqn:Ev. clear Ev.
   assert (Hv64 : v < two64) by (unfold two64; lia).
-  assert (HP : parse_uint0 (c :: r) = POk v).
+  assert (HP : parse_uint0 (c :: r) = UOk v).
   { unfold parse_uint0.
     assert (E48 : c =? 48 = false) by (apply N.eqb_neq; auto).
     rewrite E48.
@@ -161,12 +161,12 @@ Lemma parse_loop_cons_dv : forall base base0 c s' n us,
       if (c =? 95) && base0 then parse_loop base base0 s' n true
       else
         match digit_val c with
-        | None => (PErr ESyntax, us)
+        | None => (UErr ESyntax, us)
         | Some d =>
-            if base <=? d then (PErr ESyntax, us)
-            else if (maxu64 / base + 1) <=? n then (PErr ERange, us)
+            if base <=? d then (UErr ESyntax, us)
+            else if (maxu64 / base + 1) <=? n then (UErr ERange, us)
             else if ((n * base + d) mod two64 <? n * base) || (maxu64 <? (n * base + d) mod two64)
-                 then (PErr ERange, us)
+                 then (UErr ERange, us)
                  else parse_loop base base0 s' ((n * base + d) mod two64) us
         end.
 Proof. reflexivity. Qed.
@@ -202,7 +202,7 @@ Qed.
 
 Lemma loop_base : forall b, 0 < b -> forall ds n, digits_in b ds = true ->
   fold_left (stepb b) ds n < two64 ->
-  parse_loop b true ds n false = (POk (fold_left (stepb b) ds n), false).
+  parse_loop b true ds n false = (UOk (fold_left (stepb b) ds n), false).
 Proof.
   intros b Hb. induction ds as [|a ds IH]; intros n Hall Hlt.
   - reflexivity.
@@ -233,8 +233,8 @@ Lemma parse_uint0_prefixed : forall p b c r,
   In (p, b) [(98,2); (66,2); (111,8); (79,8); (120,16); (88,16)] ->
   parse_uint0 (48 :: p :: c :: r) =
     match parse_loop b true (c :: r) 0 false with
-    | (POk n, us) => if us && negb (underscore_ok (48 :: p :: c :: r)) then PErr ESyntax else POk n
-    | (PErr e, _) => PErr e
+    | (UOk n, us) => if us && negb (underscore_ok (48 :: p :: c :: r)) then UErr ESyntax else UOk n
+    | (UErr e, _) => UErr e
     end.
 Proof.
   intros p b c r H. cbn [In] in H.
@@ -256,7 +256,7 @@ Proof.
   assert (Hdv : base_val b (c :: r) = fold_left (stepb b) (c :: r) 0) by reflexivity.
   remember (base_val b (c :: r)) as v eqn:Ev. clear Ev.
   assert (Hv64 : v < two64) by (unfold two64; lia).
-  assert (HP : parse_uint0 (48 :: p :: c :: r) = POk v).
+  assert (HP : parse_uint0 (48 :: p :: c :: r) = UOk v).
   { rewrite (parse_uint0_prefixed p b c r Hin).
     rewrite (loop_base b Hb); auto.
     - rewrite <- Hdv. reflexivity.
